@@ -10,7 +10,7 @@ from props._cfg_common import TRUSTED, ASSUMPTIONS, TECHNIQUE
 PROP = "C13"
 LEVEL = "proof"
 THEOREMS = {"Properties.C13": ["C13_accepts_empty_oracle", "C13_accepts_final_oracle", "C13_member_oracle", "C13_cfg_to_pda", "C13_pda_to_cfg",
-                             "C13_to_final_state", "C13_to_empty_stack"]}
+                             "C13_to_final_state", "C13_to_empty_stack", "C13_cfg_pda_cfg_round_trip"]}
 LEVEL_TEXT = ("Proof + correspondence: pyformlang PDAs have no acceptance procedure, so the property is stated against the reference small-step "
               "semantics. Coq theorems (no axioms) show, for the mirrored models of the four conversions and for ALL grammars / PDAs (epsilon moves, "
               "multi-symbol pushes, no final states, ...) and words: cfg_to_pda accepts by empty stack exactly L(G); pda_to_cfg (triple construction with "
